@@ -58,10 +58,14 @@ CLAIMED = {
         "a Hoare logic over the VM monad shows, for every state and opcode: through execute(), numbered lines, INPUT/INKEY$ replies and interrupts "
         "the dirty flag never falls and the stored lines never change without it; statements other than DELETE/RENUM/NEW never alter lines, flag or "
         "code; a direct line entered with the flag up runs behind a fresh compilation of exactly the stored lines, and neither the old code nor the "
-        "value stack, user functions or CONT state can influence it (Props/C04.v, Proofs/Dirty.v).",
+        "value stack, user functions or CONT state can influence it; compiling the stored lines depends on the previously compiled program only through "
+        "the DATA pointer it carries along, so two machines with the flag up and the same listing agree after the same direct line on everything static, "
+        "and RUN on both yields identical states and events for any number of instructions (Props/C04.v, Proofs/Dirty.v, FreshRun.v, RunForgets.v).",
         "random edit histories on model and crate; a relational monitor re-types the crate's final listing into a fresh interpreter and compares "
         "RUN / RUN n, and checks that CONT / RETURN / NEXT / FN calls are refused after every kind of edit.",
-        "Not proved: that compiling the listing behaves like typing it into a fresh interpreter (needs compiler correctness for statements).",
+        "The fresh-machine theorem assumes equal prompt text, snapshot count, trace mode, cursor column, entropy position and saved continuation address "
+        "(the last is dead data while nothing can be continued; not shown) and compares two machines of the model; that a session history reaches "
+        "such a machine in the crate is the differential part.",
         "Coq invariant proof (Hoare logic over the VM monad) + history-based differential and relational (fresh interpreter) check"),
     "C05": entry(
         "the listed text of line n, entered again, is line n again (all n <= 65529, all token lists); the decimal rendering of a number reads back "
